@@ -339,12 +339,20 @@ func c09(run *ev.Run, variant string) {
 	r := s.roots()
 	run.Rule = "storage contract: L = sum over ALL stake pools (delegate balances + unpaid rewards), write pools, challenge pools and read pools, W = balance of the storage contract address; after every transition dL <= dW (no block reward accrues in these alphabets). Variant " + variant
 	switch variant {
-	case "life", "":
-		s.explore(run, s.lifeAlphabet(run.Pick(1, 2)), pick(run, r, "AW", "AWC"), 2, 3, s.liabMonitor)
-	case "close":
-		s.explore(run, s.closeAlphabet(run.Thorough()), pick(run, r, "AWC", "AWK"), 2, 3, s.liabMonitor)
-	case "cap":
-		s.explore(run, s.capAlphabet(run.Thorough()), pick(run, r, "AW"), 2, 3, s.liabMonitor)
+	case "alloc", "":
+		// union of the life-cycle, close and capacity alphabets (C12, C14, C13 explorations)
+		var acts []chainsim.Action
+		seen := map[string]bool{}
+		for _, l := range [][]chainsim.Action{s.lifeAlphabet(1), s.closeAlphabet(false), s.capAlphabet(false)} {
+			for _, a := range l {
+				if !seen[a.Name] {
+					seen[a.Name] = true
+					acts = append(acts, a)
+				}
+			}
+		}
+		acts = append(acts, s.collect("c2", spenum.Blobber, "b1"), s.unstake("c2", spenum.Blobber, "b3", 0))
+		s.explore(run, acts, pick(run, r, "AW", "AWC", "AWK"), 2, 3, s.liabMonitor)
 	case "read":
 		s.explore(run, s.readAlphabet(run.Thorough()), pick(run, r, "AB"), 3, 4, s.liabMonitor)
 	case "free":
